@@ -17,7 +17,7 @@ def Good (S : List (Key × VH)) (st : Store Node) (q : Path) : Prop := st q = sp
 
 /-- every meaningful slot strictly below `c` holds its specified node -/
 def SubOK (S : List (Key × VH)) (st : Store Node) (c : Path) : Prop :=
-  ∀ r, c <+: r → r ≠ c → Mean S r → st r = specNode H S r
+  ∀ r, c <+: r → r ≠ c → r.length ≤ 256 → Mean S r → st r = specNode H S r
 
 /-- a logged page: every meaningful slot of the page holds its specified node -/
 def LogOK (S : List (Key × VH)) (e : PageId × Store Node) : Prop :=
@@ -206,7 +206,7 @@ theorem tw_round (hs : H.Sound) {S : List (Key × VH)} (hk : KeysOK S) (a : TW N
     · exact h
     · rcases h with h | h <;> exact absurd h.symm (hne _)
   have hsubok : SubOK H S a2.store c0 := by
-    intro r' hpre hner hmean
+    intro r' hpre hner hlen256 hmean
     obtain ⟨b', rest, rfl⟩ := prefix_strict_cases hpre hner
     rw [hst]
     cases rest with
@@ -229,10 +229,10 @@ theorem tw_round (hs : H.Sound) {S : List (Key × VH)} (hk : KeysOK S) (a : TW N
       · rw [h]
         by_cases hb : b' = b
         · subst hb
-          exact hsub _ (snoc_prefix_of_cons c0 b' (x :: xs)) (hlen b') hmean
+          exact hsub _ (snoc_prefix_of_cons c0 b' (x :: xs)) (hlen b') hlen256 hmean
         · have : b' = !b := by cases b <;> cases b' <;> simp_all
           subst this
-          exact hsubs _ (snoc_prefix_of_cons c0 (!b) (x :: xs)) (hlen (!b)) hmean
+          exact hsubs _ (snoc_prefix_of_cons c0 (!b) (x :: xs)) (hlen (!b)) hlen256 hmean
       · rcases h with h | h <;> exact absurd h (hlen _)
   refine ⟨hval, ?_, ?_, hframe, hc0, hsubok, ?_, ?_⟩
   · show (r.2.up).pos = c0
@@ -251,12 +251,12 @@ theorem tw_round (hs : H.Sound) {S : List (Key × VH)} (hk : KeysOK S) (a : TW N
       · left; rw [← hlog]; exact he
       · right
         subst he
-        intro q hq hpg _ hmean
+        intro q hq hpg hq256 hmean
         have hrne : r.2.pos ≠ [] := by rcases hpos with h | h <;> rw [h] <;> simp
         have := page_members_below r.2.pos q hrne hd hq hpg
         rw [hdl] at this
         rw [← hst]
-        exact hsubok q this.1 this.2 hmean
+        exact hsubok q this.1 this.2 hq256 hmean
     · left; rw [← hlog]; exact he
   · intro e he
     have : a2.log = if dip r.2.pos = 1 then r.2.log ++ [(specPage r.2.pos, r.2.store)] else r.2.log := by
@@ -271,9 +271,9 @@ theorem tw_round (hs : H.Sound) {S : List (Key × VH)} (hk : KeysOK S) (a : TW N
 
 theorem subOK_upd_self {S : List (Key × VH)} (st : Store Node) (c : Path) (n : Node) (h : SubOK H S st c) :
     SubOK H S (upd st c n) c := by
-  intro r hpre hne hmean
+  intro r hpre hne hlen hmean
   rw [upd_other _ _ _ _ hne]
-  exact h r hpre hne hmean
+  exact h r hpre hne hlen hmean
 
 /-- anything below the other branch is not below `p ++ s` when `s` continues with `b1` after `s1` -/
 theorem not_under_of_flip (p s1 : Path) (b1 : Bool) (s q : Path) (hs : (s1 ++ [b1]) <+: s)
@@ -397,9 +397,9 @@ theorem tw_compactLoop_spec (hs : H.Sound) {S : List (Key × VH)} (hk : KeysOK S
         · show (a2.setNode r.1).store _ = _
           rw [hsame _ (not_under_of_flip p s1 b1 s' _ hpre (List.prefix_refl _))]
           exact hgx
-        · intro q hq hne hmean
+        · intro q hq hne hlen hmean
           rw [hsame _ (not_under_of_flip p s1 b1 s' _ hpre hq)]
-          exact hsx q hq hne hmean
+          exact hsx q hq hne hlen hmean
       obtain ⟨hP, hSub, hFr, hLog, hLogMono, hZero, hPos⟩ :=
         ih (a2.setNode r.1) p s' hpos3 hlen' htop (by omega) hg3 hsub3 hsib3
       have hlog3 : (a2.setNode r.1).log = a2.log := rfl
